@@ -14,6 +14,7 @@ package server
 // dropped) and a new MetaCDC incarnation is brought up over the same store, downstream and source logs.
 
 import (
+	"runtime"
 	"context"
 	"encoding/json"
 	"errors"
@@ -98,6 +99,7 @@ type fsScenario struct {
 	MaxCrashes int
 	MaxFaults  int
 	Pause      bool // a manual pause (followed by a resume) may be requested at any decision point
+	TargetFault bool // the downstream lookups of StartReadCollection (start-up scan of a resume / restart) may start failing; they keep failing until the next resume
 	ParkGet    bool // the read half of a checkpoint read-modify-write is a scheduling point too
 	Bound      *int
 	// RepeatFault: once the downstream has rejected a call it keeps rejecting (per channel) until the task is resumed
@@ -259,6 +261,7 @@ type fsRun struct {
 	pausesLeft  int
 	resumeBusy  bool
 	rejecting   map[string]bool // channels on which the downstream keeps rejecting (RepeatFault)
+	targetDown  map[string]bool // collections whose downstream lookup keeps failing (TargetFault)
 
 	apiErrs     []string
 	frozenFn    func() bool // no more faults / crashes (final clean phase)
@@ -498,11 +501,42 @@ func (d *fsDown) DescribePartition(ctx context.Context, p *api.DescribePartition
 type fsTarget struct {
 	fakedown.Target
 	inc *fsInc
+	r   *fsRun
 }
+
+var errFsTarget = errors.New("injected: downstream lookup failed")
 
 func (t fsTarget) GetCollectionInfo(ctx context.Context, name, db string) (*coremodel.CollectionInfo, error) {
 	t.inc.fence()
+	if r := t.r; r != nil && r.sc.TargetFault && !r.setup && fsInStartRead() {
+		if r.targetDown[name] {
+			return nil, errFsTarget
+		}
+		if r.decide(t.inc, "target:"+name, "lookup", true) == "fail" {
+			r.targetDown[name] = true
+			r.ev(fsEvent{Inc: t.inc.n, Kind: "target-fail", Key: "target:" + name, Detail: name})
+			return nil, errFsTarget
+		}
+		t.inc.fence()
+	}
 	return t.Target.GetCollectionInfo(ctx, name, db)
+}
+
+// fsInStartRead: the caller is the start-up scan of a task (StartReadCollection holds no repository lock around its
+// downstream lookups; the lazy partition refresh of a stream handler does, and must not park)
+func fsInStartRead() bool {
+	pc := make([]uintptr, 32)
+	n := runtime.Callers(2, pc)
+	fr := runtime.CallersFrames(pc[:n])
+	for {
+		f, more := fr.Next()
+		if strings.HasSuffix(f.Function, "startReadCollectionForMilvus") || strings.Contains(f.Function, "startReadCollectionForMilvus.func") {
+			return true
+		}
+		if !more {
+			return false
+		}
+	}
 }
 func (t fsTarget) GetPartitionInfo(ctx context.Context, name, db string) (*coremodel.CollectionInfo, error) {
 	t.inc.fence()
@@ -640,7 +674,7 @@ func (r *fsRun) newInc(base *fakemq.MQ) *fsInc {
 func (r *fsRun) newFullEntity(inc *fsInc, cdc *MetaCDC, uKey string) (*ReplicateEntity, error) {
 	inc.fence()
 	cfg := cdc.config
-	target := fsTarget{Target: fakedown.Target{D: r.down}, inc: inc}
+	target := fsTarget{Target: fakedown.Target{D: r.down}, inc: inc, r: r}
 	mo := &fsMetaOp{r: r}
 	rm, err := coremeta.NewReplicateMetaImpl(inc.st.GetReplicateStore(context.Background()))
 	if err != nil {
@@ -683,7 +717,7 @@ func fsReq(t fsTask) *request.CreateRequest {
 // fsStart builds the world and the first incarnation and creates the scenario's tasks.
 func fsStart(sc *fsScenario, ctl *sched.Ctl) *fsRun {
 	r := &fsRun{sc: sc, ctl: ctl, fe: fakeetcd.New(), down: fakedown.New([]string{"tgt-dml_0", "tgt-dml_1"}), srcByKey: map[string]*fsSrc{},
-		packEnd: map[string]fsPackRef{}, logs: map[string][]*msgstream.MsgPack{}, paused: map[string]bool{}, rejecting: map[string]bool{}}
+		packEnd: map[string]fsPackRef{}, logs: map[string][]*msgstream.MsgPack{}, paused: map[string]bool{}, rejecting: map[string]bool{}, targetDown: map[string]bool{}}
 	base := fakemq.New(nil)
 	base.LatestIsPublished = true
 	base.TickGap = 600 * time.Millisecond
